@@ -11,6 +11,8 @@ use std::sync::Arc;
 
 pub mod orphan;
 mod solve;
+#[cfg(chalk_verif)]
+pub use solve::verif;
 
 pub struct CoherenceSolver<'a, I: Interner> {
     db: &'a dyn RustIrDatabase<I>,
